@@ -14,6 +14,7 @@ func init() { Registry["C08"] = c08 }
 
 // c08Event is one element of a prior history.
 type c08Event struct {
+	Deep bool
 	Name string
 	// Make builds the request given the current model state (nil = not
 	// applicable in this state).
@@ -26,9 +27,14 @@ func c08(tier string) int {
 	n, depth := 17, 2
 	sizes := []int{0, 1, 4, 7}
 	if tier == "thorough" {
-		n, depth = 65, 3
+		n, depth = 65, 2
 		sizes = []int{0, 1, 3, 4, 8, 33}
 	}
+	// Depth 3 is explored over a reduced event set and with a reduced probe
+	// set (see deepShapes / the probe filter below).
+	deepShapes := map[string]bool{"plain": true, "ext": true, "junk97": true, "junk98": true, "stale-own-valid": true}
+	deepSizes := map[int]bool{0: true, 1: true, 4: true}
+	maxDepth := depth + 1
 	u := uni.New(ev.Seed(), n, []int{0})
 	gen := wh.NewCPGen(u)
 	la := wh.LogCfg{Origin: logA(), Key: u.K1}
@@ -39,7 +45,7 @@ func c08(tier string) int {
 	for _, shape := range []string{"plain", "ext", "otherlog", "stale-own-valid", "junk1", "junk96", "junk97", "junk98", "junk99", "junk100"} {
 		for _, sz := range sizes {
 			shape, sz := shape, sz
-			events = append(events, c08Event{Name: fmt.Sprintf("honest(%s,%d)", shape, sz), Make: func(st wh.MState) *wh.Req {
+			events = append(events, c08Event{Deep: deepShapes[shape] && deepSizes[sz], Name: fmt.Sprintf("honest(%s,%d)", shape, sz), Make: func(st wh.MState) *wh.Req {
 				s := 0
 				if st.Has {
 					s = int(st.Size)
@@ -53,7 +59,7 @@ func c08(tier string) int {
 		}
 	}
 	refused := func(name string, mk func(st wh.MState) *wh.Req) {
-		events = append(events, c08Event{Name: "refused(" + name + ")", Make: mk})
+		events = append(events, c08Event{Deep: name == "stale" || name == "fork-growth" || name == "garbage-sig", Name: "refused(" + name + ")", Make: mk})
 	}
 	refused("other-key", func(st wh.MState) *wh.Req { r := gen.Forged(la, m, 5)[0]; return &r })
 	refused("garbage-sig", func(st wh.MState) *wh.Req { r := gen.Forged(la, m, 5)[1]; return &r })
@@ -99,16 +105,20 @@ func c08(tier string) int {
 		names []string
 		reqs  []wh.Req
 		st    wh.MState
+		deep  bool // consists of reduced-set events only
 	}
 	cfg := wh.Config{Store: "mem", Logs: []wh.LogCfg{la}}
 	var histories []hist
 	var grow func(h hist, d int)
 	grow = func(h hist, d int) {
 		histories = append(histories, h)
-		if d == depth {
+		if d == maxDepth {
 			return
 		}
 		for _, evn := range events {
+			if d >= depth && !(evn.Deep && h.deep) {
+				continue
+			}
 			r := evn.Make(h.st)
 			if r == nil {
 				continue
@@ -122,7 +132,7 @@ func c08(tier string) int {
 			cur := e.Stored(id)
 			e.Close()
 			st, ok := wh.StateOf(gen, cur)
-			nh := hist{names: append(append([]string{}, h.names...), evn.Name+"="+out.Class), reqs: append(append([]wh.Req{}, h.reqs...), *r), st: st}
+			nh := hist{names: append(append([]string{}, h.names...), evn.Name+"="+out.Class), reqs: append(append([]wh.Req{}, h.reqs...), *r), st: st, deep: h.deep && evn.Deep}
 			run.Hist("history_events", evn.Name[:strings.Index(evn.Name, "(")]+"="+out.Class)
 			if !ok {
 				run.Report("history-foreign-state", fmt.Sprintf("history %v left unknown bytes in the store", nh.names), nil)
@@ -131,7 +141,7 @@ func c08(tier string) int {
 			grow(nh, d+1)
 		}
 	}
-	grow(hist{}, 0)
+	grow(hist{deep: true}, 0)
 	run.Set("prior_histories", len(histories))
 
 	var trans int64
@@ -158,6 +168,9 @@ func c08(tier string) int {
 					for t := lo; t <= n; t++ {
 						if tier != "thorough" && store == "sql" && t > s+3 && t != n {
 							continue
+						}
+						if len(h.reqs) > depth && t > s+2 && t != n {
+							continue // depth-3 histories: reduced probe set
 						}
 						e := wh.NewEnv(u, c)
 						for _, pr := range h.reqs {
@@ -221,7 +234,7 @@ func c08(tier string) int {
 	run.Set("traces_validated_against_impl", trans)
 	run.Set("evaluations", trans)
 	run.Set("exhaustive", true)
-	run.Set("rule", fmt.Sprintf("all prior histories of <= %d events over {honest accept in shapes plain/ext/otherlog/stale-own/junk1,96,97,98,99,100 at sizes %v; refused: other key, garbage signature, truncated, stale, old too large, fork at same size, fork growth with adversarial proof, bad proof}, executed on the real witness; from every reached state an honest probe (log's own signature only, old = current size, ref6962 proof, empty when sizes are equal or old size is 0) to EVERY size up to %d on a fresh replay, both stores; oracle: accepted. distinct_nontrivial = distinct accepted (store, history, target size)", depth, sizes, n))
+	run.Set("rule", fmt.Sprintf("all prior histories of <= %d events (plus one more event over a reduced set: shapes plain/ext/junk97/junk98/stale-own at sizes 0,1,4 and refused stale/fork-growth/garbage-sig, probed to s, s+1, s+2 and N) over {honest accept in shapes plain/ext/otherlog/stale-own/junk1,96,97,98,99,100 at sizes %v; refused: other key, garbage signature, truncated, stale, old too large, fork at same size, fork growth with adversarial proof, bad proof}, executed on the real witness; from every reached state an honest probe (log's own signature only, old = current size, ref6962 proof, empty when sizes are equal or old size is 0) to EVERY size up to %d on a fresh replay, both stores; oracle: accepted. distinct_nontrivial = distinct accepted (store, history, target size)", depth, sizes, n))
 	run.Assumption("the honest log is the main branch of the universe; the probe carries only the log's signature line")
 	return run.Finish()
 }
